@@ -74,3 +74,49 @@ __CPROVER_ensures (((unsigned long) V_SIZ (rop) == (nbits + 63) / 64 && nbits % 
   gk = nondet_long (); gj = nondet_long (); gh = nondet_long ();
   __gmpz_urandomb (&X, &R, nbits);
 }''', selftest=[('__gmpz_urandomb', r'\(\(rop\)->_mp_size\) = size', '((rop)->_mp_size) = size + 1')]))
+
+# ------------------------------------------------------------------ randseed_lc: after seeding, the LC state is a function of the seed alone
+from c03_mpz import store_loop
+LC_CONTRACT = '''long g_fs; mp_limb_t g_fl;
+#define V_LCP(r) ((gmp_rand_lc_struct *) ((r)->_mp_seed->_mp_d))
+#define V_LCN(r) ((long) ((V_LCP (r)->_mp_m2exp + 63) / 64))
+static void randseed_lc (gmp_randstate_t rstate, mpz_srcptr seed)
+/* state invariant (established by gmp_randinit_lc_2exp through mpz_init2 (seed, m2exp)): block of ALLOC >= ceil(m2exp/64) limbs */
+__CPROVER_requires (__CPROVER_r_ok (rstate, sizeof (*rstate)) && __CPROVER_w_ok (V_LCP (rstate), sizeof (gmp_rand_lc_struct)))
+__CPROVER_requires (1 <= V_LCP (rstate)->_mp_m2exp && V_LCP (rstate)->_mp_m2exp <= 64 * (unsigned long) (V_ZMAX - 1))
+__CPROVER_requires (V_WFA (V_LCP (rstate)->_mp_seed) && V_ALLOC (V_LCP (rstate)->_mp_seed) >= V_LCN (rstate) && V_WF (seed) && V_GHOSTS_OK)
+__CPROVER_assigns (*(V_LCP (rstate)->_mp_seed), __CPROVER_object_whole (V_PTR (V_LCP (rstate)->_mp_seed)), g_fs, g_fl)
+__CPROVER_frees (V_PTR (V_LCP (rstate)->_mp_seed))
+__CPROVER_ensures (V_WFA (V_LCP (rstate)->_mp_seed) && V_ALLOC (V_LCP (rstate)->_mp_seed) >= V_LCN (rstate))
+__CPROVER_ensures (V_SIZ (V_LCP (rstate)->_mp_seed) == V_LCN (rstate))
+/* every state limb is the limb of (seed mod 2^m2exp) at that position, zero above its size: nothing of the previous state survives */
+__CPROVER_ensures (gk < V_LCN (rstate) ==> V_PTR (V_LCP (rstate)->_mp_seed)[gk] == (gk < g_fs ? g_fl : 0));
+'''
+LC_H = '''/* mpz_fdiv_r_2exp: ASSUMED (stub): w = u mod 2^cnt, 0 <= w, at most ceil(cnt/64) limbs, normalised; may grow the block to cnt/64+1 limbs
+   (the real function does so for negative u); ghost capture of the result's size and of its limb at gk */
+void __gmpz_fdiv_r_2exp (mpz_ptr w, mpz_srcptr u, mpir_ui cnt)
+{
+  __CPROVER_assert (w != u && V_WFA (w) && V_WF (u), "[C19][C04] mpz_fdiv_r_2exp: operands well formed (allocation of w; u normalised)");
+  long need = (long) (cnt / 64) + 1;
+  if (V_ALLOC (w) < need && nondet_bool ())
+    { free (V_PTR (w)); w->_mp_d = malloc (need * 8); __CPROVER_assume (w->_mp_d != (void *) 0); w->_mp_alloc = need; }
+  long s = nondet_long (); __CPROVER_assume (0 <= s && s <= (long) ((cnt + 63) / 64) && s <= V_ALLOC (w));
+  __CPROVER_havoc_slice (w->_mp_d, (__CPROVER_size_t) (long) V_ALLOC (w) * 8);
+  __CPROVER_assume (s == 0 || w->_mp_d[s - 1] != 0);
+  w->_mp_size = s; g_fs = s; g_fl = (0 <= gk && gk < s) ? w->_mp_d[gk] : 0;
+}
+void h_randseed_lc (void) {
+  __gmp_randstate_struct R; gmp_rand_lc_struct *p = malloc (sizeof (gmp_rand_lc_struct)); __CPROVER_assume (p != (void *) 0);
+  R._mp_seed->_mp_d = (mp_limb_t *) p;
+  { long a = nondet_long (); __CPROVER_assume (1 <= a && a <= V_ZMAX); p->_mp_seed->_mp_alloc = a; p->_mp_seed->_mp_d = malloc (a * 8); __CPROVER_assume (p->_mp_seed->_mp_d != (void *) 0); }
+%(S)s  gk = nondet_long (); gj = nondet_long (); gh = nondet_long ();
+  randseed_lc (&R, &S);
+}'''
+UNITS.append(dict(
+    name='randseed_lc', props=['C19', 'C04', 'C15'], source='randlc2x.c', contracts=['mpn.h', 'mpz.h'], contract_text=LC_CONTRACT,
+    enforce=['randseed_lc'],
+    functions={'randseed_lc': dict(loops={0: store_loop('gk - ((seedz)->_mp_size)')})},
+    assumptions=['mpz_fdiv_r_2exp: ASSUMED (stub in the harness): non-negative result of at most ceil(cnt/64) limbs, may grow the block to cnt/64+1 limbs',
+                 'the LC state invariant ALLOC(seed) >= ceil(m2exp/64) is a precondition (established by gmp_randinit_lc_2exp via mpz_init2; not proved here)'],
+    harness='#define V_DFCC 1\n' + LC_H % dict(S=mpz_obj('S')), timeout=900,
+    selftest=[('randseed_lc', r'seedn - \(\(seedz\)->_mp_size\)\) != 0', '0) != 0'), ('randseed_lc', r'\(\(seedz\)->_mp_size\) = seedn;', ';')]))
